@@ -141,7 +141,7 @@ def run(ctx):
                     "through their value repertoires and lock flags) is one case = 1 create record + one record per fill step; plus one refill record "
                     "per form sample usable with the installed fonts; each record is one state of FormsTrace.tla judged by FillAllowed; non-trivial = distinct "
                     "(field, old value, new value, lock flag) combinations in which an unlocked field was given a different valid value",
-               exhaustive=True, cases=n, records=len(rows), records_rejected_by_tlc=len(rejected), sample_forms=summ["samples"], real_results=summ["results"],
+               exhaustive=True, cases=n, records=len(rows), records_rejected_by_tlc=len(rejected), text_fields_exported_among_date_fields=summ.get("text_exported_as_date", 0), sample_forms=summ["samples"], real_results=summ["results"],
                read_only_field_filled_with_other_value=locked_beh)
         ev.assume("valid values are those of FormsModel!Valid: options must exist, dates are in the field's format, text within MaxLen and within the "
                   "value repertoire of the model (tokens @latin @esc @spaces @lines @cjk @cyr @astral are expanded by the harness; the Unicode strings "
